@@ -435,7 +435,7 @@ def count_calls(exe_impl, script_lines):
 PLAUSIBLE = {
     "open": ["EACCES", "ENOSPC", "EMFILE", "EIO", "ENOENT"],
     "mkdir": ["EACCES", "ENOSPC"], "mkdirat": ["EACCES", "ENOSPC"],
-    "sendfile": ["EIO", "ENOSPC"], "write": ["EIO", "ENOSPC"],
+    "sendfile": ["EIO", "ENOSPC", "EINVAL"], "write": ["EIO", "ENOSPC"],
     "close": ["EIO"], "fstat": ["EIO"], "fstatat": ["EIO", "ENOMEM"], "readlinkat": ["EIO", "ENOMEM"],
     "symlinkat": ["ENOSPC", "EIO"], "unlinkat": ["EIO"], "unlink": ["EIO"], "rmdir": ["EIO"],
     "link": ["EMFILE", "ENOSPC"], "linkat": ["ENOSPC"], "ftruncate": ["EIO"], "scandir": ["ENOMEM", "EIO"],
@@ -489,9 +489,14 @@ def enumerate_cases(exe_impl, tier, kind, seed=1, only=None):
                     # of klunok's own files it would mean "there is no such file" (e.g. no remembered position), which
                     # is a different environment, not a failing call
                     errs = [e for e in errs if e != "ENOENT"]
+                if cname == "open" and "W|CREAT|EXCL" in cline and "EEXIST" not in errs:
+                    # the expected condition "name already taken" at the exclusive create of a version
+                    errs = errs + ["EEXIST"]
                 if tier == "quick" and len(errs) > 2:
-                    # the expected conditions at the open of the source (deleted / forbidden) are always tried
-                    keep = [e for e in errs if e in ("ENOENT", "EACCES") and cline.startswith("open $/w/")]
+                    # the expected conditions at the open of the source (deleted / forbidden) and at the exclusive
+                    # create (name taken) are always tried
+                    keep = [e for e in errs if (e in ("ENOENT", "EACCES") and cline.startswith("open $/w/")) or (e == "EEXIST" and "W|CREAT|EXCL" in cline)
+                            or (e == "EINVAL" and cname == "sendfile")]   # "this file system cannot do sendfile": the error sendfile(2) names first
                     rest = [e for e in errs if e not in keep]
                     errs = keep + rng.sample(rest, max(1, 2 - len(keep)))
                 for e in errs:
@@ -588,11 +593,15 @@ def mon_journal(steps, meta):
     clock = wc.CLOCK0
     stamps = set()      # stamps the lines since the last dump may carry
     wrong = set()       # stamps of configurations NOT in force
+    wlabels = {}        # cfg id -> labels of the two write events
+    wexpect = []        # (write step, label its line must carry or None for no line) since the last dump
     for st in steps:
         if st.op == "cfg":
             for t in st.tok[2:]:
                 if t.startswith("jpat="):
                     pats[st.tok[1]] = unhexs(t[5:])
+                if t.startswith("ev2=") or t.startswith("ev3="):
+                    wlabels.setdefault(st.tok[1], {})[t[:3]] = None if t[4:] == "-" else unhexs(t[4:])
         elif st.op == "cfgbind":
             bound = st.tok[1]
         elif st.op == "tick":
@@ -607,6 +616,11 @@ def mon_journal(steps, meta):
                 for c, p in pats.items():
                     if p != pats[inforce]:
                         wrong.add(_expand_stamp(p, clock))
+            if st.op == "write" and st.result == "ok" and inforce in wlabels and len(st.tok) > 2:
+                # the write event is labelled by what was decided: "by editor" iff the file was queued for versioning
+                # (a queue link was created), "not by editor" otherwise; no label, no line
+                queued = any(l.split(" ")[1:2] == ["symlinkat"] for l in st.log)
+                wexpect.append((st, wlabels[inforce].get("ev3" if queued else "ev2"), queued))
             if st.op == "write" and st.result == "ok" and len(st.tok) > 2 and unhexs(st.tok[2]) == CANON_ROOT + "/w/cfg/klunok.lua" and bound in pats:
                 inforce = bound
         if st.dump is None:
@@ -656,6 +670,18 @@ def mon_journal(steps, meta):
                         return "journal line %r is not stamped by the timestamp pattern in force (expected one of %s)" % (l, sorted(stamps))
                 if len(f) >= 2 and not any(x in LABELS for x in f[:-1]) and meta.get("labels_all", True):
                     return "journal line without a configured label: %r" % l
+            if not any(o.result in ("error", "crashed", None) for o in ops_between):
+                for (wst, lab, queued) in wexpect:
+                    wpath, wpid = unhexs(wst.tok[2]), wst.tok[1]
+                    mine = [l.split("\t") for l in newlines if l.split("\t")[-1] == wpath and wpid in l.split("\t")[:-1]]
+                    others = set(v for v in wlabels.get(inforce, {}).values() if v not in (None, "", lab))
+                    if lab is None and others and any(set(f[:-1]) & others for f in mine):
+                        return ("the write '%s' (%s) has no label configured, yet the journal got the line %r"
+                                % (wst.line, "queued" if queued else "not queued", "\t".join(mine[0])))
+                    if lab not in (None, "") and not any(lab in f[:-1] for f in mine):
+                        return ("the write '%s' was %s: its journal line must carry the label %r, the journal got %s"
+                                % (wst.line, "queued" if queued else "not queued", lab, ["\t".join(f) for f in mine] or "nothing"))
+            wexpect = []
             stamps, wrong = set(), set()
             if st.tag_same_env and meta.get("journal_counts", True) and not any(o.result in ("error", "crashed", None) for o in ops_between):
                 nw = sum(1 for o in ops_between if o.op == "write")
@@ -680,6 +706,7 @@ def mon_journal(steps, meta):
                             return "journal says %r was abandoned but %s appeared in the store" % (rel, grew[0])
         prev = cur
         ops_between = []
+        wexpect = []
     return None
 
 
@@ -1017,6 +1044,29 @@ def mon_fault_reported(steps, meta):
     return None
 
 
+def mon_expected_handled(steps, meta):
+    """C10: the expected conditions - source deleted (ENOENT at the open of the source), permission denied (EACCES
+    there), name already taken (EEXIST at the exclusive create) - are handled without stopping: the disturbed
+    operation does not end in an error"""
+    cl = meta.get("callline", "") if isinstance(meta, dict) else ""
+    e = meta.get("errno") if isinstance(meta, dict) else None
+    expected = ((e in ("ENOENT", "EACCES") and cl.startswith("open $/w/") and cl.split(" ")[2] == "R")
+                or (e == "EEXIST" and cl.startswith("open $/k/store/") and "W|CREAT|EXCL" in cl))
+    if not expected:
+        return None
+    disturbed = False
+    for st in steps:
+        if st.op == "oracle":
+            disturbed = True
+            continue
+        if disturbed and st.op in HANDLER_OPS:
+            if st.result == "error":
+                return ("the expected condition %s at '%s' made '%s' end in an error (the daemon would stop): %s"
+                        % (e, cl, st.line.split()[0], st.trace))
+            return None
+    return None
+
+
 def mon_resources(steps, meta):
     """C20: with a handler loaded exactly two descriptors are open (queue directory, journal) after every
     operation, none after release"""
@@ -1037,7 +1087,7 @@ def mon_resources(steps, meta):
 MONITORS.update({
     "queue_form": mon_queue_form, "journal": mon_journal, "faithful": mon_faithful, "history": mon_history,
     "bursts": mon_bursts, "projects": mon_projects, "recovery": mon_recovery, "no_partial": mon_no_partial,
-    "fault_reported": mon_fault_reported, "resources": mon_resources,
+    "fault_reported": mon_fault_reported, "resources": mon_resources, "expected_handled": mon_expected_handled,
 })
 
 
